@@ -5,8 +5,6 @@ import "unsafe"
 // Same-name replacements for the sync/atomic functions and types. Every
 // operation is a scheduling point and an acquire+release on the cell's clock.
 
-
-
 func atomPoint(p unsafe.Pointer) { atomPointRW(p, true) }
 
 func atomPointRW(p unsafe.Pointer, write bool) {
@@ -25,18 +23,18 @@ func atomPointRW(p unsafe.Pointer, write bool) {
 	v.join(release(t))
 }
 
-func LoadUint32(p *uint32) uint32 { atomPointRW(unsafe.Pointer(p), false); return *p }
-func LoadInt32(p *int32) int32    { atomPoint(unsafe.Pointer(p)); return *p }
-func LoadUint64(p *uint64) uint64 { atomPointRW(unsafe.Pointer(p), false); return *p }
-func LoadInt64(p *int64) int64    { atomPoint(unsafe.Pointer(p)); return *p }
-func StoreUint32(p *uint32, v uint32) { atomPoint(unsafe.Pointer(p)); *p = v }
-func StoreInt32(p *int32, v int32)    { atomPoint(unsafe.Pointer(p)); *p = v }
-func StoreUint64(p *uint64, v uint64) { atomPoint(unsafe.Pointer(p)); *p = v }
-func StoreInt64(p *int64, v int64)    { atomPoint(unsafe.Pointer(p)); *p = v }
-func AddUint32(p *uint32, d uint32) uint32 { atomPoint(unsafe.Pointer(p)); *p += d; return *p }
-func AddInt32(p *int32, d int32) int32     { atomPoint(unsafe.Pointer(p)); *p += d; return *p }
-func AddUint64(p *uint64, d uint64) uint64 { atomPoint(unsafe.Pointer(p)); *p += d; return *p }
-func AddInt64(p *int64, d int64) int64     { atomPoint(unsafe.Pointer(p)); *p += d; return *p }
+func LoadUint32(p *uint32) uint32           { atomPointRW(unsafe.Pointer(p), false); return *p }
+func LoadInt32(p *int32) int32              { atomPoint(unsafe.Pointer(p)); return *p }
+func LoadUint64(p *uint64) uint64           { atomPointRW(unsafe.Pointer(p), false); return *p }
+func LoadInt64(p *int64) int64              { atomPoint(unsafe.Pointer(p)); return *p }
+func StoreUint32(p *uint32, v uint32)       { atomPoint(unsafe.Pointer(p)); *p = v }
+func StoreInt32(p *int32, v int32)          { atomPoint(unsafe.Pointer(p)); *p = v }
+func StoreUint64(p *uint64, v uint64)       { atomPoint(unsafe.Pointer(p)); *p = v }
+func StoreInt64(p *int64, v int64)          { atomPoint(unsafe.Pointer(p)); *p = v }
+func AddUint32(p *uint32, d uint32) uint32  { atomPoint(unsafe.Pointer(p)); *p += d; return *p }
+func AddInt32(p *int32, d int32) int32      { atomPoint(unsafe.Pointer(p)); *p += d; return *p }
+func AddUint64(p *uint64, d uint64) uint64  { atomPoint(unsafe.Pointer(p)); *p += d; return *p }
+func AddInt64(p *int64, d int64) int64      { atomPoint(unsafe.Pointer(p)); *p += d; return *p }
 func SwapUint32(p *uint32, v uint32) uint32 { atomPoint(unsafe.Pointer(p)); o := *p; *p = v; return o }
 func SwapInt32(p *int32, v int32) int32     { atomPoint(unsafe.Pointer(p)); o := *p; *p = v; return o }
 func SwapUint64(p *uint64, v uint64) uint64 { atomPoint(unsafe.Pointer(p)); o := *p; *p = v; return o }
@@ -97,34 +95,34 @@ func (b *Bool) CompareAndSwap(o, n bool) bool {
 
 type Int32 struct{ v int32 }
 
-func (x *Int32) Load() int32        { return LoadInt32(&x.v) }
-func (x *Int32) Store(v int32)      { StoreInt32(&x.v, v) }
-func (x *Int32) Add(d int32) int32  { return AddInt32(&x.v, d) }
-func (x *Int32) Swap(v int32) int32 { return SwapInt32(&x.v, v) }
+func (x *Int32) Load() int32                    { return LoadInt32(&x.v) }
+func (x *Int32) Store(v int32)                  { StoreInt32(&x.v, v) }
+func (x *Int32) Add(d int32) int32              { return AddInt32(&x.v, d) }
+func (x *Int32) Swap(v int32) int32             { return SwapInt32(&x.v, v) }
 func (x *Int32) CompareAndSwap(o, n int32) bool { return CompareAndSwapInt32(&x.v, o, n) }
 
 type Uint32 struct{ v uint32 }
 
-func (x *Uint32) Load() uint32         { return LoadUint32(&x.v) }
-func (x *Uint32) Store(v uint32)       { StoreUint32(&x.v, v) }
-func (x *Uint32) Add(d uint32) uint32  { return AddUint32(&x.v, d) }
-func (x *Uint32) Swap(v uint32) uint32 { return SwapUint32(&x.v, v) }
+func (x *Uint32) Load() uint32                    { return LoadUint32(&x.v) }
+func (x *Uint32) Store(v uint32)                  { StoreUint32(&x.v, v) }
+func (x *Uint32) Add(d uint32) uint32             { return AddUint32(&x.v, d) }
+func (x *Uint32) Swap(v uint32) uint32            { return SwapUint32(&x.v, v) }
 func (x *Uint32) CompareAndSwap(o, n uint32) bool { return CompareAndSwapUint32(&x.v, o, n) }
 
 type Int64 struct{ v int64 }
 
-func (x *Int64) Load() int64        { return LoadInt64(&x.v) }
-func (x *Int64) Store(v int64)      { StoreInt64(&x.v, v) }
-func (x *Int64) Add(d int64) int64  { return AddInt64(&x.v, d) }
-func (x *Int64) Swap(v int64) int64 { return SwapInt64(&x.v, v) }
+func (x *Int64) Load() int64                    { return LoadInt64(&x.v) }
+func (x *Int64) Store(v int64)                  { StoreInt64(&x.v, v) }
+func (x *Int64) Add(d int64) int64              { return AddInt64(&x.v, d) }
+func (x *Int64) Swap(v int64) int64             { return SwapInt64(&x.v, v) }
 func (x *Int64) CompareAndSwap(o, n int64) bool { return CompareAndSwapInt64(&x.v, o, n) }
 
 type Uint64 struct{ v uint64 }
 
-func (x *Uint64) Load() uint64         { return LoadUint64(&x.v) }
-func (x *Uint64) Store(v uint64)       { StoreUint64(&x.v, v) }
-func (x *Uint64) Add(d uint64) uint64  { return AddUint64(&x.v, d) }
-func (x *Uint64) Swap(v uint64) uint64 { return SwapUint64(&x.v, v) }
+func (x *Uint64) Load() uint64                    { return LoadUint64(&x.v) }
+func (x *Uint64) Store(v uint64)                  { StoreUint64(&x.v, v) }
+func (x *Uint64) Add(d uint64) uint64             { return AddUint64(&x.v, d) }
+func (x *Uint64) Swap(v uint64) uint64            { return SwapUint64(&x.v, v) }
 func (x *Uint64) CompareAndSwap(o, n uint64) bool { return CompareAndSwapUint64(&x.v, o, n) }
 
 type Value struct{ v any }
